@@ -147,14 +147,24 @@ Proof.
   - cbn. intros _. exact H.
   - unfold set_node. destruct (lookup n (nodes s)); [|intros _; exact H].
     destruct (olast l); [|intros _; exact H]. cbn. intros _. exact H.
-  - destruct (has_node s a && has_node s b); cbn; intros _; exact H.
+  - destruct (has_node s a && has_node s b); [|cbn; intros _; exact H].
+    cbn [fst]. intros _. unfold log_bounded, curv, log_creation. cbn [elog tx]. fold (curv s).
+    destruct (N.ltb 1 (curv s)); [|exact H]. intros e' log'. rewrite lookup_set.
+    destruct (N.eqb e' (next_edge s)); [|apply H]. intros [= <-]. constructor; [cbn; lia|constructor].
   - unfold set_edge. destruct (negb (has_edge s e)); [intros _; exact H|].
     cbn [fst]. intros _. unfold log_bounded, curv. cbn [elog tx]. intros e' log'. rewrite lookup_set.
     destruct (N.eqb e' e) eqn:Ee; [|apply H].
-    intros [= <-].
-    assert (bounded (curv s) (match lookup e (elog s) with Some l => l | None => [] end)) as Hl.
+    intros [= <-]. fold (curv s).
+    assert (bounded (curv s) (match lookup e (elog s) with Some l => l | None => [] end)) as Hl0.
     { destruct (lookup e (elog s)) eqn:El; [eapply H; eauto|constructor]. }
-    fold (curv s). destruct (olast _).
+    set (log0 := match lookup e (elog s) with Some l => l | None => [] end) in *.
+    assert (bounded (curv s)
+              (match log0 with
+               | [] => if N.ltb 1 (curv s) then [{| v_ver := 1; v_props := cur_eprops s e |}] else []
+               | _ :: _ => log0 end)) as Hl.
+    { destruct log0; [|exact Hl0]. destruct (N.ltb 1 (curv s)) eqn:E1; [|constructor].
+      constructor; [cbn; lia|constructor]. }
+    destruct (olast _).
     + destruct (N.eqb (v_ver v0) (curv s)).
       * apply bounded_upd_last; auto.
       * apply bounded_app; auto. cbn. lia.
@@ -297,3 +307,282 @@ Lemma step_gc s w : fst (step s (Tx (Gc w))) = gc s w.
 Proof. reflexivity. Qed.
 Lemma step_gc_auto s : fst (step s (Tx GcAuto)) = gc_auto s.
 Proof. reflexivity. Qed.
+
+(* ================================================================================
+   C07 on this model: a read of the past (version older than current_version) never
+   changes afterwards -- for nodes and, since relationships carry their creation image /
+   pre-image, for relationships.  A collection gc_versions(w) may only change reads below w. *)
+Definition gc_ok (v : N) (o : mop) : bool :=
+  match o with
+  | Tx (Gc w) => N.leb w v
+  | Tx GcAuto => false
+  | _ => true
+  end.
+
+Record wf2 (s : store) : Prop := {
+  w2_wf : wf s;
+  w2_live : forall id, In id (live s) -> id < next_edge s;
+  w2_log_live : forall id log, lookup id (elog s) = Some log -> In id (live s);
+  w2_log_ne : forall id log, lookup id (elog s) = Some log -> log <> [];
+  w2_nodes : forall id c, lookup id (nodes s) = Some c -> id < next_node s
+}.
+
+Lemma rfind_app_false {A} (p : A -> bool) l x : p x = false -> rfind p (l ++ [x]) = rfind p l.
+Proof. intros H. induction l as [|y l IH]; cbn [app rfind]; [rewrite H; reflexivity|]. rewrite IH. reflexivity. Qed.
+
+Lemma rfind_upd_last {A} (p : A -> bool) (f : A -> A) l :
+  (forall y, olast l = Some y -> p y = false /\ p (f y) = false) ->
+  rfind p (upd_last f l) = rfind p l.
+Proof.
+  induction l as [|x l IH]; [reflexivity|]. destruct l as [|z l'].
+  - intros H. destruct (H x eq_refl) as [H1 H2]. cbn. rewrite H1, H2. reflexivity.
+  - intros H. change (upd_last f (x :: z :: l')) with (x :: upd_last f (z :: l')).
+    cbn [rfind]. rewrite IH; [reflexivity|]. intros y Hy. apply H. exact Hy.
+Qed.
+
+Lemma olast_some {A} (l : list A) : l <> [] -> exists y, olast l = Some y.
+Proof.
+  induction l as [|x l IH]; [congruence|]. intros _. destruct l as [|z l']; [eexists; reflexivity|].
+  destruct IH as [y Hy]; [discriminate|]. exists y. exact Hy.
+Qed.
+
+Lemma upd_last_ne {A} (f : A -> A) l : l <> [] -> upd_last f l <> [].
+Proof. destruct l as [|x [|y r]]; cbn; congruence. Qed.
+
+Lemma rposition_skipn_ne {A} (p : A -> bool) l i : rposition p l = Some i -> skipn i l <> [].
+Proof.
+  revert i. induction l as [|x l IH]; intros i; cbn [rposition]; [discriminate|].
+  destruct (rposition p l) as [j|] eqn:E.
+  - intros [= <-]. cbn [skipn]. apply IH. reflexivity.
+  - destruct (p x); [|discriminate]. intros [= <-]. cbn. discriminate.
+Qed.
+
+Lemma gc_list_ne w l : l <> [] -> fst (gc_list w l) <> [].
+Proof.
+  unfold gc_list. destruct l as [|a [|b r]]; cbn [fst]; auto.
+  intros _. destruct (rposition _ _) as [i|] eqn:E; cbn [fst]; [|discriminate].
+  eapply rposition_skipn_ne; eauto.
+Qed.
+
+Lemma mem_app_other x l y : x <> y -> mem x (l ++ [y]) = mem x l.
+Proof.
+  intros H. unfold mem. rewrite existsb_app. cbn. destruct (N.eqb x y) eqn:E; [apply N.eqb_eq in E; congruence|].
+  rewrite !orb_false_r. reflexivity.
+Qed.
+
+Lemma mem_app_same x l : mem x (l ++ [x]) = true.
+Proof. unfold mem. rewrite existsb_app. cbn. rewrite N.eqb_refl. rewrite orb_true_r. reflexivity. Qed.
+
+Lemma mem_false_not_in x l : ~ In x l -> mem x l = false.
+Proof. intros H. destruct (mem x l) eqn:E; [|reflexivity]. apply mem_in in E. tauto. Qed.
+
+(* what a relationship read of the past depends on: not on current_version *)
+Definition past_edge (lv : list N) (lg : list (N * list ver)) (ep : list (N * props)) (e v : N) : option ver :=
+  if negb (mem e lv) then None
+  else match lookup e lg with
+       | Some log =>
+           match rfind (fun x => N.leb (v_ver x) v) log with
+           | Some entry => if N.ltb v (v_ver entry) then None
+                           else Some {| v_ver := v_ver entry; v_props := v_props entry |}
+           | None => None
+           end
+       | None => if N.ltb v 1 then None
+                 else Some {| v_ver := 1; v_props := match lookup e ep with Some p => p | None => [] end |}
+       end.
+
+Lemma read_edge_past s e v :
+  v < curv s -> read_edge s e v = past_edge (live s) (elog s) (eprops s) e v.
+Proof.
+  intros H. unfold read_edge, past_edge, has_edge, cur_eprops.
+  destruct (negb (mem e (live s))); [reflexivity|].
+  destruct (lookup e (elog s)) as [log|]; [|reflexivity].
+  destruct (rfind _ log); [|reflexivity].
+  assert (N.ltb v (curv s) = true) as -> by (apply N.ltb_lt; exact H).
+  rewrite orb_true_r. reflexivity.
+Qed.
+
+Lemma wf2_init : wf2 init.
+Proof.
+  constructor; [exact wf_init| | | |]; cbn; try (intros; contradiction); intros; discriminate.
+Qed.
+
+Lemma wf2_step s o : wf2 s -> wf2 (fst (step s o)).
+Proof.
+  intros [[W1 [W2 W3]] L1 L2 L3 L4].
+  constructor.
+  - split; [apply tx_inv_step; auto|]. split; [apply log_bounded_step; auto|apply chain_bounded_step; auto].
+  - (* live ids below next_edge *)
+    destruct o as [p|n k v|a b|e k v|o']; cbn [step].
+    + cbn. exact L1.
+    + unfold set_node. destruct (lookup n (nodes s)); [|exact L1]. destruct (olast l); exact L1.
+    + destruct (has_node s a && has_node s b); [|exact L1]. cbn. intros id Hi.
+      apply in_app_or in Hi. destruct Hi as [Hi|[<-|[]]]; [apply L1 in Hi; lia|lia].
+    + unfold set_edge. destruct (negb (has_edge s e)); exact L1.
+    + destruct o'; cbn [step]; try exact L1;
+        match goal with |- context [Txn.step ?a ?b] => destruct (Txn.step a b) end; exact L1.
+  - (* logged ids are live *)
+    destruct o as [p|n k v|a b|e k v|o']; cbn [step].
+    + cbn. exact L2.
+    + unfold set_node. destruct (lookup n (nodes s)); [|exact L2]. destruct (olast l); exact L2.
+    + destruct (has_node s a && has_node s b); [|exact L2]. cbn [fst live elog]. unfold log_creation.
+      intros id log. destruct (N.ltb 1 (curv s)).
+      * rewrite lookup_set. destruct (N.eqb id (next_edge s)) eqn:E.
+        -- apply N.eqb_eq in E. subst. intros _. apply in_or_app. right. left. reflexivity.
+        -- intros H. apply in_or_app. left. eapply L2; eauto.
+      * intros H. apply in_or_app. left. eapply L2; eauto.
+    + unfold set_edge. destruct (negb (has_edge s e)) eqn:He; [exact L2|]. cbn [fst live elog].
+      intros id log. rewrite lookup_set. destruct (N.eqb id e) eqn:E; [|apply L2].
+      apply N.eqb_eq in E. subst. intros _. apply negb_false_iff in He. apply mem_in. exact He.
+    + destruct o'; cbn [step];
+        try (match goal with |- context [Txn.step ?a ?b] => destruct (Txn.step a b) end; exact L2);
+        cbn [fst gc live elog]; intros id log; rewrite lookup_gc_map;
+        (destruct (lookup id (elog s)) eqn:El; [|discriminate]); intros _; eapply L2; eauto.
+  - (* logs are never empty *)
+    destruct o as [p|n k v|a b|e k v|o']; cbn [step].
+    + cbn. exact L3.
+    + unfold set_node. destruct (lookup n (nodes s)); [|exact L3]. destruct (olast l); exact L3.
+    + destruct (has_node s a && has_node s b); [|exact L3]. cbn [fst elog]. unfold log_creation.
+      intros id log. destruct (N.ltb 1 (curv s)); [|apply L3].
+      rewrite lookup_set. destruct (N.eqb id (next_edge s)); [intros [= <-]; discriminate|apply L3].
+    + unfold set_edge. destruct (negb (has_edge s e)) eqn:He; [exact L3|]. cbn [fst elog].
+      intros id log. rewrite lookup_set. destruct (N.eqb id e) eqn:E; [|apply L3].
+      intros [= <-].
+      match goal with |- context [olast ?l] => remember l as lg eqn:Elg; destruct (olast lg) eqn:Eo end.
+      * destruct (N.eqb (v_ver v0) (curv s)).
+        -- apply upd_last_ne. intros Hnil. rewrite Hnil in Eo. discriminate.
+        -- intros H. apply app_eq_nil in H. destruct H; discriminate.
+      * intros H. apply app_eq_nil in H. destruct H; discriminate.
+    + destruct o'; cbn [step];
+        try (match goal with |- context [Txn.step ?a ?b] => destruct (Txn.step a b) end; exact L3);
+        cbn [fst gc elog]; intros id log; rewrite lookup_gc_map;
+        (destruct (lookup id (elog s)) eqn:El; [|discriminate]); intros [= <-]; apply gc_list_ne; eapply L3; eauto.
+  - (* node ids below next_node *)
+    destruct o as [p|n k v|a b|e k v|o']; cbn [step].
+    + cbn [fst nodes next_node]. intros id c. rewrite lookup_set. destruct (N.eqb id (next_node s)) eqn:E.
+      * apply N.eqb_eq in E. intros _. lia.
+      * intros H. apply L4 in H. lia.
+    + unfold set_node. destruct (lookup n (nodes s)) eqn:El; [|exact L4]. destruct (olast l); [|exact L4].
+      cbn [fst nodes next_node]. intros id c. rewrite lookup_set. destruct (N.eqb id n) eqn:E; [|apply L4].
+      apply N.eqb_eq in E. subst. intros _. eapply L4; eauto.
+    + destruct (has_node s a && has_node s b); exact L4.
+    + unfold set_edge. destruct (negb (has_edge s e)); exact L4.
+    + destruct o'; cbn [step];
+        try (match goal with |- context [Txn.step ?a ?b] => destruct (Txn.step a b) end; exact L4);
+        cbn [fst gc nodes next_node]; intros id c; rewrite lookup_gc_map;
+        (destruct (lookup id (nodes s)) eqn:El; [|discriminate]); intros _; eapply L4; eauto.
+Qed.
+
+Lemma wf2_run_from ops : forall s, wf2 s -> wf2 (run_from s ops).
+Proof.
+  induction ops as [|o ops IH]; intros s H; [exact H|].
+  unfold run_from in *. cbn [fold_left]. apply IH. apply wf2_step. exact H.
+Qed.
+
+Lemma wf2_run ops : wf2 (run ops).
+Proof. apply wf2_run_from. exact wf2_init. Qed.
+
+Lemma edge_stable_step s o e v :
+  wf2 s -> v < curv s -> gc_ok v o = true ->
+  read_edge (fst (step s o)) e v = read_edge s e v.
+Proof.
+  intros W Hv Hok. pose proof (curv_step s o) as Hc.
+  destruct W as [[W1 [W2 W3]] L1 L2 L3 L4].
+  (* collections first: C08 *)
+  destruct o as [p|n k x|a b|e' k x|o'];
+    try (destruct o' as [i|t n|t e0|t|t|w|]; cbn [gc_ok] in Hok;
+         [| | | | |cbn [step fst]; apply gc_preserves_edge; [exact W2|lia]|discriminate]);
+    rewrite (read_edge_past s e v Hv), read_edge_past by lia.
+  - reflexivity.
+  - cbn [step]. unfold set_node. destruct (lookup n (nodes s)); [|reflexivity]. destruct (olast l); reflexivity.
+  - cbn [step]. destruct (has_node s a && has_node s b); [|reflexivity]. cbn [fst live elog eprops].
+    unfold past_edge, log_creation. destruct (N.eqb e (next_edge s)) eqn:Ee.
+    + apply N.eqb_eq in Ee. subst e. rewrite mem_app_same. cbn [negb].
+      assert (~ In (next_edge s) (live s)) as Hnl by (intros Hi; apply L1 in Hi; lia).
+      rewrite (mem_false_not_in _ _ Hnl). cbn [negb].
+      destruct (N.ltb 1 (curv s)) eqn:E1.
+      * rewrite lookup_set, N.eqb_refl. cbn [rfind v_ver].
+        assert (N.leb (curv s) v = false) as -> by lia. reflexivity.
+      * destruct (lookup (next_edge s) (elog s)) eqn:El; [exfalso; apply Hnl; eapply L2; eauto|].
+        assert (N.ltb v 1 = true) as -> by lia. reflexivity.
+    + assert (e <> next_edge s) as Hne by (intros ->; rewrite N.eqb_refl in Ee; discriminate).
+      rewrite mem_app_other by auto. destruct (N.ltb 1 (curv s)); [|reflexivity].
+      rewrite lookup_set, Ee. reflexivity.
+  - cbn [step]. unfold set_edge. destruct (negb (has_edge s e')) eqn:He; [reflexivity|].
+    cbn [fst live elog eprops]. unfold past_edge. destruct (negb (mem e (live s))); [reflexivity|].
+    rewrite !lookup_set. destruct (N.eqb e e') eqn:Ee; [|reflexivity].
+    apply N.eqb_eq in Ee. subst e'. unfold cur_eprops.
+    destruct (lookup e (elog s)) as [[|x0 r0]|] eqn:El.
+    + exfalso. eapply L3; eauto.
+    + (* a log exists: last entry coalesced, or a new entry appended *)
+      destruct (olast_some (x0 :: r0)) as [l0 Hl0]; [discriminate|]. rewrite Hl0.
+      destruct (N.eqb (v_ver l0) (curv s)) eqn:E0.
+      * apply N.eqb_eq in E0. rewrite rfind_upd_last; [reflexivity|].
+        intros y Hy. rewrite Hl0 in Hy. injection Hy as <-. cbn [v_ver]. split; lia.
+      * rewrite rfind_app_false; [reflexivity|]. cbn [v_ver]. lia.
+    + (* no log yet: pre-image under version 1, then the post-image *)
+      destruct (N.ltb 1 (curv s)) eqn:E1.
+      * cbn [olast v_ver]. assert (N.eqb 1 (curv s) = false) as -> by lia.
+        cbn [app rfind v_ver]. assert (N.leb (curv s) v = false) as -> by lia.
+        destruct (N.leb 1 v) eqn:E2; cbn [v_ver v_props].
+        -- assert (N.ltb v 1 = false) as -> by lia. reflexivity.
+        -- assert (N.ltb v 1 = true) as -> by lia. reflexivity.
+      * cbn [olast app rfind v_ver]. assert (N.leb (curv s) v = false) as -> by lia.
+        assert (N.ltb v 1 = true) as -> by lia. reflexivity.
+  - reflexivity.
+  - cbn [step]. unfold write_n. cbn [Txn.step]. reflexivity.
+  - reflexivity.
+  - cbn [step]. match goal with |- context [Txn.step ?a ?b] => destruct (Txn.step a b) end. reflexivity.
+  - cbn [step]. match goal with |- context [Txn.step ?a ?b] => destruct (Txn.step a b) end. reflexivity.
+Qed.
+
+Lemma node_stable_step s o n v :
+  wf2 s -> v < curv s -> gc_ok v o = true ->
+  read_node (fst (step s o)) n v = read_node s n v.
+Proof.
+  intros W Hv Hok. destruct W as [[W1 [W2 W3]] L1 L2 L3 L4].
+  destruct o as [p|n' k x|a b|e' k x|o'].
+  - cbn [step fst]. unfold read_node. cbn [nodes]. rewrite lookup_set.
+    destruct (N.eqb n (next_node s)) eqn:E; [|reflexivity]. apply N.eqb_eq in E. subst n.
+    destruct (lookup (next_node s) (nodes s)) eqn:El; [apply L4 in El; lia|].
+    cbn [rfind v_ver]. fold (curv s). assert (N.leb (curv s) v = false) as -> by lia. reflexivity.
+  - cbn [step]. unfold set_node. destruct (lookup n' (nodes s)) as [chain|] eqn:El; [|reflexivity].
+    destruct (olast chain) as [latest|] eqn:Eo; [|reflexivity]. cbn [fst]. unfold read_node. cbn [nodes].
+    rewrite lookup_set. destruct (N.eqb n n') eqn:E; [|reflexivity]. apply N.eqb_eq in E. subst n'. rewrite El.
+    destruct (N.ltb (v_ver latest) (curv s)) eqn:E1.
+    + apply rfind_app_false. cbn [v_ver]. lia.
+    + apply rfind_upd_last. intros y Hy. rewrite Eo in Hy. injection Hy as <-. cbn [v_ver]. split; lia.
+  - cbn [step]. destruct (has_node s a && has_node s b); reflexivity.
+  - cbn [step]. unfold set_edge. destruct (negb (has_edge s e')); reflexivity.
+  - destruct o' as [i|t m|t e0|t|t|w|]; cbn [gc_ok] in Hok; try discriminate;
+      try (cbn [step]; match goal with |- context [Txn.step ?a ?b] => destruct (Txn.step a b) end; reflexivity).
+    cbn [step fst]. apply gc_preserves_node. lia.
+Qed.
+
+Lemma stable_from ops : forall s v,
+  wf2 s -> v < curv s -> forallb (gc_ok v) ops = true ->
+  (forall e, read_edge (run_from s ops) e v = read_edge s e v) /\
+  (forall n, read_node (run_from s ops) n v = read_node s n v).
+Proof.
+  induction ops as [|o ops IH]; intros s v W Hv Hok; [split; reflexivity|].
+  cbn [forallb] in Hok. apply andb_true_iff in Hok. destruct Hok as [Ho Hok].
+  unfold run_from in *. cbn [fold_left].
+  destruct (IH (fst (step s o)) v) as [H1 H2]; auto.
+  - apply wf2_step; auto.
+  - pose proof (curv_step s o). lia.
+  - split; intros x.
+    + rewrite H1. apply edge_stable_step; auto.
+    + rewrite H2. apply node_stable_step; auto.
+Qed.
+
+Lemma run_app_m a b : run (a ++ b) = run_from (run a) b.
+Proof. unfold run, run_from. apply fold_left_app. Qed.
+
+(* C07 for relationship reads (and node reads of this model): for every history ops1 and every
+   continuation ops2 whose collections, if any, are gc_versions(w) with w <= v *)
+Theorem past_reads_stable : forall ops1 ops2 v,
+  v < curv (run ops1) -> forallb (gc_ok v) ops2 = true ->
+  (forall e, read_edge (run (ops1 ++ ops2)) e v = read_edge (run ops1) e v) /\
+  (forall n, read_node (run (ops1 ++ ops2)) n v = read_node (run ops1) n v).
+Proof.
+  intros ops1 ops2 v Hv Hok. rewrite run_app_m. apply stable_from; auto. apply wf2_run.
+Qed.
